@@ -24,3 +24,14 @@ Theorem C16_farthest_on_segment_is_endpoint : forall (g p q : P3) (a b : Z), 0 <
   <= (a + b) * (a + b) * Z.max (d2 p g) (d2 q g).
 Proof. exact farthest_on_segment_is_endpoint. Qed.
 Print Assumptions C16_farthest_on_segment_is_endpoint.
+
+(* ---- the farthest point of the hull of the vertices is a vertex: every convex combination (non-negative integer weights,
+   homogeneous coordinates) of points within squared distance rn/rd of g stays within that distance.  With
+   C16_far_site_redundant: no site beyond twice the largest vertex distance can cut the hull of the vertices; what
+   remains between this and the property for the cell itself is VerticesSpan (cell = hull of its vertices) *)
+From MV Require Import Model.CellExact Proofs.HullProofs Proofs.HullRadius.
+Theorem C16_hull_in_ball : forall (g : V3) (rn rd : Z), 0 <= rn -> 0 < rd -> forall l,
+  Forall (fun '(lam, p) => 0 <= lam /\ 0 < snd p /\ rd * norm2 (hrel g p) <= snd p * snd p * rn) l ->
+  rd * norm2 (hrel g (hcomb l)) <= snd (hcomb l) * snd (hcomb l) * rn /\ 0 <= snd (hcomb l).
+Proof. exact hull_in_ball. Qed.
+Print Assumptions C16_hull_in_ball.
